@@ -6,16 +6,29 @@ from .. import harness, denote, astio, driver, jsout, world
 from ..denote import OracleGap
 from ..harness import Leaf, Skeleton
 from ..interp import clone_val
-from . import common, elements, c01, c03, c04, c05, c13, children
+from . import common, elements, c01, c03, c04, c05, c10, c13, children
 from .elements import PRELUDE, find_input_element
 
 PROP = 'C12'
 MOD = 'mirsym.checks.c12'
-SRC = {'c01': c01, 'c03': c03, 'c04': c04, 'c05': c05, 'c13': c13}
+SRC = {'c01': c01, 'c03': c03, 'c04': c04, 'c05': c05, 'c13': c13, 'c10': c10}
+# statement-level modules (assignments, hoisted temporaries, functions) beyond the single `_0` declaration
+MODS = {
+    'assign-self-slot': 'v1 = <Foo>{{v1}}</Foo>;', 'assign-other-slot': 'v2 = <Foo>{{v1}}</Foo>;', 'assign-member': 'o1.x = <Foo>{{v1}}</Foo>;',
+    'let-assign': 'let a = 1; a = <C1>{{a}}</C1>;', 'assign-in-fn': 'function g() {{ v3 = <Foo>{{v3}}</Foo>; return v3; }}', 'assign-arrow': 'const g = () => (v1 = <Foo>{{v1}}</Foo>);',
+    'assign-call-child': 'v1 = <Foo>{{f1()}}</Foo>;', 'assign-el': 'v1 = <div>{{v1}}</div>;', 'assign-nested': 'v1 = <Foo><C1>{{v1}}</C1></Foo>;', 'assign-frag': 'v1 = <><Foo>{{v1}}</Foo></>;',
+    'two-assign': 'v1 = <Foo>{{v1}}</Foo>; v2 = <Foo>{{v2}}</Foo>;', 'assign-op': 'v1 ||= <Foo>{{v1}}</Foo>;', 'assign-cond': 'v1 = v2 ? <Foo>{{v1}}</Foo> : <C1>{{v2}}</C1>;',
+    'decl-self': 'const z = <Foo>{{z}}</Foo>;', 'param-default': 'function g(p = <Foo>{{v1}}</Foo>) {{ return p; }}', 'class-prop': 'class K {{ m() {{ v1 = <Foo>{{v1}}</Foo>; }} }}',
+}
 
 
 def make_skeleton(spec):
-    base = SRC[spec['from']].make_skeleton(spec['spec'])
+    if spec['from'] == 'mod':
+        src = c10.PRELUDE10 + MODS[spec['spec']] + '\n'
+        base = Skeleton('mod#' + spec['spec'], src, [], {'enable_object_slots': 'sym'}, meta={'family': 'mod'})
+    else:
+        base = SRC[spec['from']].make_skeleton(spec['spec'])
+        base.alt_templates = []
     base.opts['optimize'] = False
     base.variants = [{'optimize': True}]
     base.sid = 'c12/' + base.sid
@@ -25,6 +38,8 @@ def make_skeleton(spec):
 
 def extra_constraints(skel):
     fam = skel.meta['family'].split('/')[1]
+    if fam not in SRC:
+        return []
     m = SRC[fam]
     return m.extra_constraints(skel) if hasattr(m, 'extra_constraints') else []
 
@@ -72,6 +87,11 @@ def _is_vnode_callee(callee, mv):
     return n in (None, 'createVNode')
 
 
+def module_items(post):
+    body = deref(deref(post).fields[0]).get('body')
+    return [it for it in body if not (deref(it).variant == 'ModuleDecl' and deref(deref(it).fields[0]).variant == 'Import')]
+
+
 def oracle(env):
     ctx = env.ctx
     posts = env.extra.get('posts')
@@ -93,6 +113,17 @@ def oracle(env):
                               denote.expr_eq(ctx, ea, eb), {'which': name}))
         # with optimize off there are no hints at all
         obs.append(Obligation('without optimize no hint arguments or `_` keys are emitted', denote.expr_eq(ctx, a, erase_hints(a, mva)), {'which': name}))
+    # the whole module: every statement other than the imports (assignments, hoisted temporaries, helper functions)
+    ia_, ib_ = module_items(posts[0]), module_items(posts[1])
+    if len(ia_) != len(ib_):
+        obs.append(Obligation('the module has the same statements with optimize on and off', False, {'off': len(ia_), 'on': len(ib_)}))
+    else:
+        users = frozenset(c10.input_ctxts(env.pre))
+        mva = denote.ModuleView(posts[0]); mvb = denote.ModuleView(posts[1])
+        ra = c10.renumber(erase_hints(ia_, mva), {}, users, mva); rb = c10.renumber(erase_hints(ib_, mvb), {}, users, mvb)
+        same = denote.expr_eq(ctx, ra, rb)
+        obs.append(Obligation('every statement of the module is the same with optimize on and off once hints are erased', same,
+                              {} if same is not False else {'hint': c10.first_difference(ia_, ib_)}))
     # helper declarations / imports other than the vnode factory stay the same
     ia = sorted((k[0] or '') + '=' + (v or '') for k, v in denote.ModuleView(posts[0]).vue.items())
     ib = sorted((k[0] or '') + '=' + (v or '') for k, v in denote.ModuleView(posts[1]).vue.items())
@@ -112,6 +143,9 @@ def jobs(tier):
     add('c04', c04.jobs(tier), 5 if q else 2)
     add('c05', c05.jobs(tier), 5 if q else 2)
     add('c13', c13.jobs(tier), 6 if q else 2)
+    for m in MODS:
+        out.append({'module': MOD, 'spec': {'from': 'mod', 'spec': m}})
+    add('c10', [j for j in c10.jobs(tier) if j['spec'].get('prefix') in ('jsx-assign', 'jsx-assign-other', 'block', 'two-temps', 'jsx-temp-fn', 'assign-same')], 2 if q else 1)
     # nested trees: slot_flag_stack push / pop / fill
     for kids in c13.NEST:
         for h in ('Foo', 'C1', 'div'):
